@@ -193,11 +193,14 @@ def check(case):
             pyrandom.seed(case["seed"])
             cls = P.CuckooFilter if kind == "cuckoo" else P.CountingCuckooFilter
             c = cls(capacity=rng_cap(case), bucket_size=2, max_swaps=20, finger_size=1 + case["d"] % 4)
-            for k in keys:
-                if isinstance(k, str):
-                    c.add(k)
-                    if kind == "ccf" and len(k) % 2:
+            try:
+                for k in keys:
+                    if isinstance(k, str):
                         c.add(k)
+                        if kind == "ccf" and len(k) % 2:
+                            c.add(k)
+            except P.exceptions.CuckooFilterFullError:
+                pass  # a refused insertion is legitimate; the layout is checked on the state reached
             data = bytes(c)
         finally:
             pyrandom.setstate(state)
